@@ -691,6 +691,8 @@ Section Totals.
     - exists "". eexists. split; [|left; reflexivity]. reflexivity.
   Qed.
 End Totals.
+Open Scope nat_scope.
+Open Scope string_scope.
 
 (* ------------------------------------------------------------------ C14: the stripped text evaluates to the value *)
 (* Full statement (for every fragment expression, any spacing): NOT proved in full — it needs a printer/parser
@@ -700,18 +702,18 @@ End Totals.
 Definition strip_evaluates_statement : Prop :=
   forall e : aexp, prec_ok e = true -> eval_arith (aprint e) = Some (avalue e).
 
-Definition sample_atoms : list aexp := [ANum 0; ANum 7; ANum 12; ARoll (-3); ARoll 100].
-Definition sample_ws : list string := [""; " "; String (ascii_of_N 10) " "].
+Definition sample_atoms : list aexp := [ANum 0; ANum 12; ARoll (-3); ARoll 100].
+Definition sample_ws : list string := [""; String (ascii_of_N 10) " "].
 Definition sample_unary : list aexp :=
-  (sample_atoms ++ flat_map (fun a => [ANeg "" a; ANeg " " a; APos "" a; ANeg "" (ANeg "" a)]) sample_atoms)%list.
-Definition sample_bin (ls rs : list aexp) (ops : list binop) : list aexp :=
-  flat_map (fun l => flat_map (fun r => flat_map (fun o => flat_map (fun w1 => map (fun w2 => ABin o l w1 w2 r) sample_ws) sample_ws) ops) rs) ls.
-Definition sample_terms : list aexp := (sample_unary ++ sample_bin sample_unary sample_atoms [OMul])%list.
+  (sample_atoms ++ flat_map (fun a => [ANeg " " a; APos "" a; ANeg "" (ANeg "" a)]) [ANum 7; ARoll (-3)])%list.
+Definition sample_bin (ls rs : list aexp) (ops : list binop) (wss : list string) : list aexp :=
+  flat_map (fun l => flat_map (fun r => flat_map (fun o => flat_map (fun w1 => map (fun w2 => ABin o l w1 w2 r) wss) wss) ops) rs) ls.
+Definition sample_terms : list aexp := (sample_unary ++ sample_bin sample_unary sample_atoms [OMul] [""])%list.
 Definition sample_level2 : list aexp :=
-  (sample_atoms ++ map (fun e => AParen " " e "") (sample_bin sample_atoms sample_atoms [OAdd; OSub; OMul]))%list.
+  (sample_atoms ++ map (fun e => AParen " " e "") (sample_bin [ANum 12; ARoll (-3)] [ANum 7; ARoll 100] [OAdd; OSub; OMul] [" "]))%list.
 Definition sample_exprs : list aexp :=
-  (sample_terms ++ sample_bin sample_terms sample_level2 [OAdd; OSub] ++
-   sample_bin (sample_bin sample_atoms sample_atoms [OAdd; OSub; OMul]) sample_level2 [OAdd; OSub; OMul])%list.
+  (sample_terms ++ sample_bin sample_terms sample_level2 [OAdd; OSub] sample_ws ++
+   sample_bin (sample_bin sample_atoms sample_atoms [OAdd; OSub; OMul] [""]) sample_level2 [OAdd; OSub; OMul] [" "])%list.
 Definition strip_eval_ok (e : aexp) : bool :=
   negb (prec_ok e) ||
   match eval_arith (aprint e) with Some v => Z.eqb v (avalue e) | None => false end.
@@ -726,3 +728,32 @@ Proof.
 Qed.
 Lemma sample_exprs_count : (1000 <=? length (filter prec_ok sample_exprs))%nat = true.
 Proof. vm_compute. reflexivity. Qed.
+
+(* ------------------------------------------------------------------ non-vacuity on a real dump *)
+(* `x1 = 5` then `(2d6)d4 + 3*f - x1` (harness c14-src, seed 5): spans, offset, result and text as Go produced them *)
+Definition ex_src : string := "(2d6)d4 + 3*f - x1".
+Definition ex_spans : list span :=
+  [mkSpan 0 7 "19" "3+3+2+1+2+3+2+3" "" "dice" false "";
+   mkSpan 1 4 "8" "4+4" "" "dice" false "";
+   mkSpan 12 13 "0" "+--+" "" "dice-fate" false "";
+   mkSpan 16 18 "5" "" "" "load" false ""].
+Definition ex_go_text : string := "19[(2d6)d4=3+3+2+1+2+3+2+3,2d6=8] + 3*0[f=+--+] - 5[x1]".
+
+Lemma ex_shape :
+  make_detail ex_src 18 ex_spans "14" = ex_go_text /\ wf_spans 18 ex_spans /\ length (groups_of 18 ex_spans) = 3.
+Proof.
+  split; [vm_compute; reflexivity|]. split; [|vm_compute; reflexivity].
+  split.
+  - repeat constructor; cbn; lia.
+  - repeat constructor; cbn; lia.
+Qed.
+Lemma ex_strip :
+  nobr (stake 18 ex_src) = true /\ Forall span_clean ex_spans /\
+  strip_annotations ex_go_text = "19 + 3*0 - 5" /\ eval_arith (strip_annotations ex_go_text) = Some 14%Z.
+Proof.
+  split; [vm_compute; reflexivity|]. split; [repeat constructor|]. split; vm_compute; reflexivity.
+Qed.
+Lemma ex_small :
+  make_detail "d10" 3 [mkSpan 0 3 "3" "3" "" "dice" false ""] "3" = "" /\
+  make_detail " 2d6 " 5 [mkSpan 1 4 "7" "3+4" "" "dice" false ""] "7" = "7[2d6=3+4]".
+Proof. split; vm_compute; reflexivity. Qed.
